@@ -74,6 +74,26 @@ func ruleC11(w *World) {
 			h + " == nil":                          {"sentinel:errNilHasher"},
 			fmt.Sprintf("%s.Size() < %s", h, nLen): {"ctor:invalidHasherSizeErrorf"},
 		})
+		// the refusals are unconditional: no error-free outcome (a verdict, a signature, the wrong-length clause) is
+		// reachable for a hasher that was not validated
+		for _, r := range w.returnsAll(fn) {
+			ret := r.ins.(*ssa.Return)
+			if len(ret.Results) == 0 || !isNilConst(ret.Results[len(ret.Results)-1]) {
+				continue
+			}
+			fs := w.deepFacts(r)
+			has := func(want string) bool {
+				for _, f := range fs {
+					if f == want {
+						return true
+					}
+				}
+				return false
+			}
+			okk := has(h+" != nil") && has(fmt.Sprintf("%s.Size() >= %s", h, nLen))
+			w.check(okk, "C11.R1", fnKey(fn)+"/error-free-return/hasher-validated", retPos(ret), "error-free outcome only for a validated hasher",
+				"an error-free outcome is reachable although the hasher was not tested (nil / too short): the documented refusal depends on the other arguments", fs...)
+		}
 		// nLen really is the byte length of the curve order (helper shape)
 	}
 	if b2b := w.fn(rootPath, "bitsToBytes"); b2b != nil {
@@ -259,6 +279,11 @@ func ruleC12(w *World) {
 		})
 		if hk == 0 {
 			w.viol("C12.R1", fnKey(fn)+"/hkdf", fn.Pos(), "no HKDF call")
+		}
+		// R9: ECDSA: the scalar placed in the key is ((int(OKM) mod (N-1)) + 1) of the whole HKDF output
+		if len(cgoCallsDeep(w, fn, "", 3)) == 0 {
+			w.floor("C12.R9", 1)
+			w.ruleEcdsaScalarShape("C12.R9", fn)
 		}
 	}
 	// R2: no nondeterminism reaches key generation / decoding / PublicKey()
@@ -489,6 +514,10 @@ func ruleC13(w *World) {
 		w.check(okk, "C13.R2", fnKey(fn)+"/cshake-params", fn.Pos(), "cSHAKE128(N=\"KMAC\", S=customizer)", "cSHAKE is not instantiated with N=\"KMAC\" and the caller's customizer")
 	}
 	w.ruleKmacSequences("C13.R2")
+	// R7: a digest handed to the caller is the caller's own value: nothing the hasher writes later (a further Write,
+	// SumHash, Reset, Read) can change it — the returned slice is rooted in fresh memory, never in the receiver or a global
+	w.floor("C13.R7", 6)
+	w.ruleFreshDigests("C13.R7")
 	// sponge ComputeHash: Reset → write(data) → sum; SHA2: Reset → Write → Sum
 	var spongeT *types.Named
 	if p := w.ByPath[hashPath]; p != nil {
@@ -1915,4 +1944,51 @@ func b2i(b bool) int64 {
 		return 1
 	}
 	return 0
+}
+
+
+// ruleFreshDigests: for every implementation of hash.Hasher in the module, the slices returned by ComputeHash and
+// SumHash are rooted only in memory allocated during the call (effects engine: roots of the returned value).
+func (w *World) ruleFreshDigests(rule string) {
+	ea := w.effects()
+	n := 0
+	for _, t := range w.implementors(hashPath, "Hasher", hashPath) {
+		for _, mn := range []string{"ComputeHash", "SumHash"} {
+			f := w.method(t, mn)
+			if f == nil || f.Blocks == nil {
+				continue
+			}
+			n++
+			bad := ""
+			for _, r := range returns(f) {
+				if len(r.Results) == 0 {
+					continue
+				}
+				for _, rt := range ea.roots(r.Results[0], f, 0) {
+					if rt.kind == rkFresh {
+						continue
+					}
+					if bad == "" {
+						bad = fmt.Sprintf("the digest returned at %s is rooted in %s: a later operation on the hasher (or another caller) can change a digest the caller already holds", w.pos(retPos(r)), rootString(rt))
+					}
+				}
+			}
+			w.check(bad == "", rule, fnKey(f)+"/fresh-result", f.Pos(), "returned digest is freshly allocated", bad)
+		}
+	}
+	if n == 0 {
+		w.undecided(rule, "anchor:hashers", token.NoPos, "unresolved anchor: Hasher implementations")
+	}
+}
+
+func rootString(r root) string {
+	switch r.kind {
+	case rkParam:
+		return "parameter/receiver `" + r.name + "`"
+	case rkGlobal:
+		return "package variable `" + r.name + "`"
+	case rkShared:
+		return "shared memory (" + r.name + ")"
+	}
+	return "fresh memory"
 }
